@@ -280,9 +280,13 @@ def dict_to_live_points(d, non_sampling_parameters=True):
     a = tuple(d.values())
     if hasattr(a[0], "__len__"):
         N = len(a[0])
+        is_scalar = False
     else:
         N = 1
-    if N == 1:
+        is_scalar = True
+    # Sequences of length one (e.g. from live_points_to_dict) must be assigned
+    # field by field like any other sequence
+    if is_scalar:
         if non_sampling_parameters:
             a = (*a, *config.livepoints.non_sampling_defaults)
         return np.array(
